@@ -331,8 +331,13 @@ def _mk(t):
 
 class SymReal:
     __slots__ = ("t",)
+
+    def __hash__(self):
+        # constant hash: a dict/set lookup with a symbolic key then compares with `==` against every symbolic key,
+        # which forks (cache hit vs miss) - the right semantics for code that memoises on a float argument
+        return 0x5EED
+
     # no __array_priority__: numpy treats a SymReal as an object scalar and works element-wise
-    __hash__ = None
 
     def __init__(self, t):
         self.t = t
@@ -489,6 +494,10 @@ class SymReal:
 
     def __ne__(s, o):
         return s._cmp(o, lambda a, b: a != b)
+
+    def __bool__(s):
+        # truthiness of a number: x != 0 (fork point), e.g. `if not np.any(innovation)`
+        return decide(s.t != 0)
 
     # -- conversions
     def __float__(s):
@@ -692,7 +701,11 @@ class Leaf:
         v = self.value
         if isinstance(v, BaseException):
             v = f"{type(v).__name__}: {str(v)[:80]}"
-        return f"Leaf({self.status}, {''.join('T' if d else 'F' for d in self.decisions)}, {v!r:.120})"
+        try:
+            vs = f"{v!r:.120}"
+        except BaseException:  # repr of library objects may try to concretise symbolic values
+            vs = f"<{type(v).__name__}>"
+        return f"Leaf({self.status}, {''.join('T' if d else 'F' for d in self.decisions)}, {vs})"
 
 
 def explore(fn, *, assumes=(), max_paths=4000, kmax=3, prune_timeout_ms=3000, config=None, catch=(Exception,)):
